@@ -1,8 +1,8 @@
 # Per-property check table used by ./check. quick/thorough override shards/checks/env.
-def e1(func, profile, qchecks=192, qshards=16, tchecks=3200, tshards=16, qblocks=100, tblocks=200, **kw):
+def e1(func, profile, qchecks=640, qshards=16, tchecks=3200, tshards=16, qblocks=100, tblocks=200, **kw):
     d = dict(func=func, profile=profile,
              quick=dict(checks=qchecks, shards=qshards, timeout=1200, env={"VERIF_BLOCKS_PCT": qblocks}),
-             thorough=dict(checks=tchecks, shards=tshards, timeout=7000, shrinktime="300s", env={"VERIF_BLOCKS_PCT": tblocks}))
+             thorough=dict(checks=tchecks, shards=tshards, timeout=7000, shrinktime="60s", env={"VERIF_BLOCKS_PCT": tblocks}))
     d.update(kw)
     return d
 
